@@ -172,7 +172,14 @@ def canon_generic(v):
         if isinstance(o, (list, tuple)):
             return tuple(ser(x, depth + 1) for x in o)
         if isinstance(o, dict):
-            return ('D',) + tuple((k, ser(o[k], depth + 1)) for k in sorted(o))
+            return ('D',) + tuple(sorted(((ser(k, depth + 1), ser(o[k], depth + 1)) for k in o), key=repr))
+        if isinstance(o, (set, frozenset)):
+            return ('SET',) + tuple(sorted((ser(x, depth + 1) for x in o), key=repr))
+        if isinstance(o, (bytes, bytearray, complex, range)):
+            return (type(o).__name__, repr(o))
+        import enum
+        if isinstance(o, enum.Enum):
+            return ('E', type(o).__name__, o.name)
         d = getattr(o, '__dict__', None)
         if d is None:
             # __slots__ classes: collect the slots of the whole MRO
@@ -185,7 +192,10 @@ def canon_generic(v):
         if d is not None:
             return (type(o).__name__,) + tuple((k, ser(d[k], depth + 1)) for k in sorted(d)
                                                 if k not in ('_valid', '_parsable'))
-        raise env.HarnessError('canon: cannot serialise %r' % type(o))
+        # anything else (a compiled pattern, a function, an iterator ... kept by an implementation for its own purposes): its
+        # type, and its repr when that does not contain an address
+        r = repr(o)
+        return ('OBJ', type(o).__name__, r if ' at 0x' not in r else '')
 
     return ser(v)
 
